@@ -16,8 +16,24 @@ let cls_of = function "rb" -> ERebalance | "ka" -> EKafka | "dr" -> EDropped | s
 let str_of_cls = function ERebalance -> "rb" | EKafka -> "ka" | EDropped -> "dr"
 let ans_of = function "ok" -> AOk | s -> AErr (cls_of s)
 
-let label_of (tok : string) : label =
+let meta_of = function "ok" -> MOk | "un" -> MUnknown | s -> MErr (cls_of s)
+
+(* number of metadata reads the model expects for each LJoin label, in order (0 = none) *)
+let join_reads : int list ref = ref []
+
+let rec label_of (tok : string) : label =
+  let l = label_of_raw tok in
+  (match l with
+   | LJoin _ -> if List.length (String.split_on_char ':' tok) <> 6 then join_reads := 0 :: !join_reads
+   | _ -> ());
+  l
+and label_of_raw (tok : string) : label =
   match String.split_on_char ':' tok with
+  | ["Jo"; m; "L"; nt; first; per] ->
+    let per = if per = "-" then [] else List.map meta_of (String.split_on_char '.' per) in
+    let (ld, reads) = leader_assign (nat_of_hex nt) (meta_of first) per in
+    join_reads := int_of_nat reads :: !join_reads;
+    LJoin (JOk (nat_of_hex m, ld))
   | ["Co"; a] -> LCoord (ans_of a)
   | ["Jo"; m; "n"] -> LJoin (JOk (nat_of_hex m, NotLeader))
   | ["Jo"; m; "l"] -> LJoin (JOk (nat_of_hex m, LeaderOk))
@@ -82,12 +98,14 @@ let project (s : state) : string =
   let add x = buf := x :: !buf in
   let backoff = ref false in
   let is_user f = (match List.nth_opt s.fns (int_of_nat f) with Some fn -> fn.f_kind = KUser | None -> false) in
+  let reads = ref (List.rev !join_reads) in
+  let rd () = (match !reads with n :: t -> reads := t; if n > 0 then Printf.sprintf "r%x" n else "" | [] -> "") in
   List.iter (fun e ->
       match e with
       | HBackoff -> backoff := true
       | HCoordReq -> add (if !backoff then "bc" else "c"); backoff := false
-      | HJoinReq None -> add "j-"
-      | HJoinReq (Some m) -> add ("j" ^ hex_of_nat m)
+      | HJoinReq None -> add ("j-" ^ rd ())
+      | HJoinReq (Some m) -> add ("j" ^ hex_of_nat m ^ rd ())
       | HSyncReq m -> add ("s" ^ hex_of_nat m)
       | HFetchReq -> add "f"
       | HHeartbeat (k, f, m) -> add ("h" ^ hex_of_nat k ^ "." ^ hex_of_nat f ^ "." ^ hex_of_nat m)
@@ -109,6 +127,7 @@ let project (s : state) : string =
   ^ " mon=" ^ monitors s.hist ^ (if mon_done s.hist then "" else "+done") ^ (if s.panicked then "+PANIC" else "")
 
 let eval_e2e (w : string) (labels : string list) : string =
+  join_reads := [];
   let s = ref (init (nat_of_hex w)) in
   let rec go i = function
     | [] -> project !s
